@@ -179,6 +179,38 @@ let bedraw_obs (a : string array) =
   String.concat ";" (List.map (fun (r, v) ->
     res_nat_str r ^ "/" ^ view_str v ^ "/" ^ owned_str nn v) es)
 
+(* typed other fields (NV.Text.BedTyped); the f64 text oracle comes with the case *)
+let bedt_obs (a : string array) =
+  let floats = ref [] in
+  let vs = if a.(7) = "-" then [] else
+    List.map (fun e ->
+      let body = String.sub e 2 (String.length e - 2) in
+      match e.[0] with
+      | 'S' -> BVString (bytes_of_hex body)
+      | 'I' -> BVInt (z_of_dec body)
+      | 'U' -> BVUInt (n_of_dec body)
+      | 'C' -> BVChar (n_of_dec body)
+      | 'F' ->
+          let i = String.index body ':' in
+          let bits = n_of_dec (String.sub body 0 i) in
+          floats := (bits, bytes_of_hex (String.sub body (i + 1) (String.length body - i - 1))) :: !floats;
+          BVFloat bits
+      | _ -> failwith "other kind") (split_on ',' a.(7)) in
+  let fmt64 b = try List.assoc b !floats with Not_found -> [] in
+  let a' = Array.copy a in
+  a'.(7) <- "-";
+  let r = bed_of a' in
+  match bed_write_typed fmt64 r vs with
+  | Err e -> "W=Err:" ^ err_name e
+  | Panic -> "W=Panic"
+  | Ok line ->
+      let views = bed_read_file (nat_of_int 3) r.b_n (line @ [lf]) (bed_default r.b_n) in
+      "W=" ^ hex_of_bytes line ^ "|R=" ^
+      String.concat ";" (List.map (function
+        | Ok v -> view_str v ^ "/" ^ owned_str r.b_n v
+        | Err e -> "Err:" ^ err_name e
+        | Panic -> "Panic") views)
+
 (* ---- GFF3 line kinds (NV.Text.GffLine) ---- *)
 let optv = function None -> "-" | Some v -> hex_of_bytes v
 let no_prs = fun _ -> None
@@ -236,6 +268,31 @@ let gffcom_obs (a : string array) =
   let line = gff_write_comment (bytes_of_hex a.(0)) in
   "W=" ^ hex_of_bytes line ^ "|" ^ lines_of (line @ [lf])
 
+(* ---- GTF lines (NV.Text.GtfLine) ---- *)
+let gtline_str = function
+  | TComment s -> "C:" ^ hex_of_bytes s
+  | TRecord GNotRecord -> "R:NotRecord"
+  | TRecord (GLineErr e) -> "R:Err:" ^ err_name e
+  | TRecord (GRec l) -> "R:" ^ lazy_str l
+
+let gtbuf_str = function
+  | TBComment s -> "C:" ^ hex_of_bytes s
+  | TBRecord r -> "R:" ^ res_str feature_str r
+
+let gtfline_obs (a : string array) =
+  let text = bytes_of_hex a.(0) in
+  let bufs = gtf_file_line_bufs no_prs text in
+  "L=" ^ joined (List.map gtline_str (gtf_file_lines no_prs text))
+  ^ "|O=" ^ joined (List.map gtbuf_str bufs)
+  ^ "|B=" ^ joined (List.map (res_str feature_str) (gtf_record_bufs bufs))
+
+let gtfcom_obs (a : string array) =
+  let line = gtf_write_comment (bytes_of_hex a.(0)) in
+  let text = line @ [lf] in
+  "W=" ^ hex_of_bytes line
+  ^ "|L=" ^ joined (List.map gtline_str (gtf_file_lines no_prs text))
+  ^ "|O=" ^ joined (List.map gtbuf_str (gtf_file_line_bufs no_prs text))
+
 let handle kind a =
   match kind with
   | "gff" -> Some (gff_obs true a)
@@ -244,10 +301,13 @@ let handle kind a =
   | "gtf" -> Some (gtf_obs a)
   | "bed" -> Some (bed_obs a)
   | "bedfile" -> Some (bedfile_obs a)
+  | "bedt" -> Some (bedt_obs a)
   | "bedraw" -> Some (bedraw_obs a)
   | "gffline" -> Some (gffline_obs a)
   | "gffdir" -> Some (gffdir_obs a)
   | "gffcom" -> Some (gffcom_obs a)
+  | "gtfline" -> Some (gtfline_obs a)
+  | "gtfcom" -> Some (gtfcom_obs a)
   | _ -> None
 
 let () = run_driver handle
